@@ -4,11 +4,13 @@ package main
 
 // C07: annealing loop contract.  Drives the REAL annealers.SimpleAnnealer / ElapsedTimeTrackingAnnealer with
 //  (a) a bare explorer built on each of the three REAL coolants (kirkpatrick, suppapitnarm, averaged) whose CoolDown has
-//      the shape of the real explorers' (coolant.CoolDown(); "Cooling" note), and
+//      the shape of the real explorers' (coolant.CoolDown(); "Cooling" note to the explorer's observers), and
 //  (b) the REAL explorers (kirkpatrick; suppapitnarm with the suppapitnarm and the averaged coolant) on the modumb model,
 // both behind a recording wrapper that logs every call the annealer makes on its explorer and can panic at a scripted
-// point.  0..3 recording observers and a recording logger append to the same log, so the log is the global order of
-// everything the property talks about.  Temperatures are exported as binary64 bit patterns.
+// point.  0..3 recording observers append to the same log, so the log is the global order of everything the property
+// talks about (the four annealing-state events per observer; Initialise / TryRandomChange / CoolDown / TearDown calls).
+// Log lines and relayed explorer / model notes are NOT recorded: the property does not constrain them.
+// Temperatures are exported as binary64 bit patterns.
 
 import (
 	"errors"
@@ -62,8 +64,6 @@ type c07Entry struct {
 type c07Log struct {
 	entries   []c07Entry
 	temp      func() float64
-	n         uint64
-	abits     uint64
 	anomalies []string
 }
 
@@ -95,13 +95,8 @@ func (o *c07Obs) ObserveEvent(e observer.Event) {
 		code = c07FinishIter
 	case observer.FinishedAnnealing:
 		code = c07Finish
-	case observer.Explorer:
-		if e.Note() != "Cooling" {
-			return // other relayed explorer notes are outside the property
-		}
-		code = c07Cooling
 	default:
-		return // relayed model events
+		return // relayed explorer / model events are outside the property
 	}
 	k := uint64(0)
 	if v := e.Attribute("CurrentIteration"); v != nil {
@@ -110,36 +105,15 @@ func (o *c07Obs) ObserveEvent(e observer.Event) {
 			o.log.anomaly("CurrentIteration is not a uint64")
 		}
 		k = kk
-		if code == c07Start {
-			o.log.anomaly("StartedAnnealing carries CurrentIteration")
-		}
 	} else if code != c07Start {
 		o.log.anomaly(fmt.Sprintf("event %d without CurrentIteration", code))
-	}
-	if v, ok := e.Attribute("MaximumIterations").(uint64); !ok || v != o.log.n {
-		o.log.anomaly(fmt.Sprintf("event %d: MaximumIterations attribute %v, budget %d", code, e.Attribute("MaximumIterations"), o.log.n))
 	}
 	t, ok := e.Attribute("Temperature").(float64)
 	if !ok {
 		o.log.anomaly(fmt.Sprintf("event %d without float64 Temperature", code))
 	}
-	if code == c07Start {
-		if f, ok := e.Attribute("CoolingFactor").(float64); !ok || math.Float64bits(f) != o.log.abits {
-			o.log.anomaly("StartedAnnealing: CoolingFactor attribute differs from the configured factor")
-		}
-	}
 	o.log.add(o.idx, code, k, t)
 }
-
-// ---- recording logger (the annealer's own log handler) ----
-
-type c07Logger struct {
-	loggers.NullLogger
-	log *c07Log
-}
-
-func (l *c07Logger) Error(m interface{}) { l.log.pseudo(c07LogError, 0) }
-func (l *c07Logger) Info(m interface{})  { l.log.pseudo(c07LogInfo, 0) }
 
 // ---- script + recording wrapper around an explorer ----
 
@@ -367,6 +341,7 @@ type c07Result struct {
 	finalIt  uint64
 	finalT   uint64
 	setupBad string
+	firstBad string
 }
 
 func c07Catch(f func()) (panicked bool, val interface{}) {
@@ -383,7 +358,7 @@ func c07Catch(f func()) (panicked bool, val interface{}) {
 }
 
 func c07Execute(c c07Case) c07Result {
-	log := &c07Log{n: c.n, abits: math.Float64bits(c.a)}
+	log := &c07Log{}
 	st := &c07Script{origErr: errors.New("c07 scripted failure"), origOther: "c07 scripted failure (string)"}
 	inner := c07BuildExplorer(c.expl, c.t0, c.a)
 	wrapper := &c07Explorer{Explorer: inner, log: log, st: st}
@@ -409,7 +384,7 @@ func c07Execute(c c07Case) c07Result {
 		inner = wrapper.Explorer
 	}
 	log.temp = c07TempReader(inner)
-	ann.SetLogHandler(&c07Logger{log: log})
+	ann.SetLogHandler(new(loggers.NullLogger))
 	inner.SetLogHandler(new(loggers.NullLogger))
 	for i := 0; i < c.m; i++ {
 		ann.AddObserver(&c07Obs{idx: i, log: log})
@@ -430,7 +405,7 @@ func c07Execute(c c07Case) c07Result {
 	counter := ann.(interface{ VerifCurrentIteration() uint64 })
 	if c.second {
 		if p, v := c07Catch(ann.Anneal); p {
-			res.setupBad = fmt.Sprint("first Anneal() panicked: ", v)
+			res.firstBad = fmt.Sprint("a fault-free Anneal() panicked: ", v)
 			return res
 		}
 		log.entries = nil
@@ -528,6 +503,22 @@ func c07Oracle(c c07Case, r c07Result) []string {
 			fail("observer %d saw skeleton %v, expected %v", i, got, want)
 		}
 	}
+	// lock-step delivery: each event goes to observers 0..m-1 in registration order before the next one is sent
+	pos := 0
+	for _, e := range r.log.entries {
+		if e.who < 0 {
+			if pos != 0 {
+				fail("a call on the explorer happened while an event was still being delivered (next observer %d of %d)", pos, c.m)
+				pos = 0
+			}
+			continue
+		}
+		if e.who != pos {
+			fail("observers are not notified one after the other in registration order: observer %d got an event when observer %d was due", e.who, pos)
+			break
+		}
+		pos = (pos + 1) % c.m
+	}
 	// explorer calls
 	var nInit, nTry, nCool, nTear, firstStart, initAt, tearAt, lastObs = 0, uint64(0), uint64(0), 0, -1, -1, -1, -1
 	for idx, e := range r.log.entries {
@@ -614,6 +605,11 @@ func c07Emit(c c07Case) {
 	r := c07Execute(c)
 	if r.setupBad != "" {
 		panic("c07: harness set-up failed (" + c.expl + "): " + r.setupBad)
+	}
+	if r.firstBad != "" { // no injected fault, and yet Anneal() panicked: that is a violation, not a harness problem
+		emit(J{"kind": "oracle", "what": r.firstBad, "annealer": c.ann, "explorer": c.expl, "N": c.n, "observers": c.m,
+			"T0": fmt.Sprint(c.t0), "a": fmt.Sprint(c.a), "clone": c.clone})
+		return
 	}
 	entries := make([][4]uint64, len(r.log.entries))
 	for i, e := range r.log.entries {
@@ -733,11 +729,18 @@ func runC07(args []string) {
 						}
 					}
 				} else { // long runs: first, last and one random iteration, place and payload drawn
-					for _, k := range []uint64{1, n, uint64(2 + rng.intn(int(n)-2))} {
+					ks := []uint64{1, n, uint64(2 + rng.intn(int(n)-2))}
+					if n >= 1000 {
+						ks = ks[2:]
+					}
+					for _, k := range ks {
 						c := base
 						c.k, c.where, c.pay = k, c07WhereTry+rng.intn(3), c07PayError+rng.intn(3)
 						run(c)
 					}
+				}
+				if n >= 1000 {
+					continue
 				}
 				// a panic scripted beyond the budget never happens
 				if n >= 1 {
